@@ -37,6 +37,13 @@ Theorem c19_noninterference_refuted :
 Proof. exact noninterference_refuted_witness. Qed.
 Print Assumptions c19_noninterference_refuted.
 
+(* ... and that is the whole extent of the dependence: for ALL channel sets, with every member named "channel"
+   erased (blank), the root contexts of twin sessions are equal under the policy *)
+Theorem c19_noninterference_up_to_channel : forall e s t, redact e = true -> session_twin s t ->
+  blank "channel" (root_context e s) = blank "channel" (root_context e t).
+Proof. exact root_context_up_to_channel. Qed.
+Print Assumptions c19_noninterference_up_to_channel.
+
 (* contacts without a name are shown by id (and named ones by name, whatever the policy) wherever a contact or
    a run is rendered: @contact, @run.contact, @run, @parent.contact, @parent, @child.contact, @child *)
 Theorem c19_format_by_id : forall e c,
